@@ -715,9 +715,15 @@ func (env *evalEnv) evalCall(x *ECall) cval {
 			evalFail("pure %s expects %d arguments", x.Fn, len(p.Params))
 		}
 		vars := map[string]cval{}
+		penv := *env
+		if p.Pkg != "" {
+			if tp := fx.P.TypesPkgs[p.Pkg]; tp != nil {
+				penv.pkg = tp
+			}
+		}
 		for i, prm := range p.Params {
 			av := env.eval(x.Args[i])
-			srt, typ := env.resolveType(prm.Type)
+			srt, typ := penv.resolveType(prm.Type)
 			if av.sort == "nil" {
 				av = cval{t: nilOfSort(srt), sort: srt, typ: typ}
 			}
@@ -729,6 +735,11 @@ func (env *evalEnv) evalCall(x *ECall) cval {
 		// pure bodies see only their parameters (plus heap)
 		n := *env
 		n.vars = vars
+		if p.Pkg != "" {
+			if tp := fx.P.TypesPkgs[p.Pkg]; tp != nil {
+				n.pkg = tp
+			}
+		}
 		return n.eval(p.Body)
 	}
 	evalFail("unknown function %s", x.Fn)
